@@ -107,6 +107,11 @@ pub mod mio {
     use super::io;
     #[derive(Clone, Copy, PartialEq, Eq)]
     pub struct Token(pub usize);
+    /// `==` on tokens compares the wrapped id (mio derives PartialEq)
+    impl vstd::std_specs::cmp::PartialEqSpecImpl for Token {
+        open spec fn obeys_eq_spec() -> bool { true }
+        open spec fn eq_spec(&self, o: &Token) -> bool { self.0 == o.0 }
+    }
     #[derive(Clone, Copy)]
     pub struct Ready { pub r: bool, pub w: bool }
     impl Ready {
